@@ -9,7 +9,7 @@ from vp import core, gen
 
 PROP_ID = 'C08'
 LEVEL = 'exploration'
-BUDGET = {'quick': 2500, 'thorough': 60000}
+BUDGET = {'quick': 5000, 'thorough': 60000}
 RULE = ('Model-based histories over 1..3 filterbank objects: Hypothesis draws (num_taps 1..8, num_branches '
         'in {2..64 even} or small odd, window, input dtype real/complex/int, seed) and a list of feeds '
         '(object, chunk of w windows, cache on/off, optional cache reset, memory layout of the chunk: contiguous, strided view, '
@@ -21,7 +21,7 @@ RULE = ('Model-based histories over 1..3 filterbank objects: Hypothesis draws (n
         'cached chunks on one stream, or complex input.')
 ASSUMPTIONS = ['chunks are whole multiples of num_taps*num_branches samples (the property\'s admissible sizes)',
                'reference DFT by explicit matrix product in complex128', 'comparison tolerance 1e-10 relative to the largest reference magnitude']
-REQUIRED_CLASSES = ['non_contiguous_input', 'readonly_input', 'dtype=real', 'dtype=complex', 'dtype=int', 'chunks>=2', 'objects>=2', 'uncached_interleaved',
+REQUIRED_CLASSES = ['cache_keyword_omitted', 'non_contiguous_input', 'readonly_input', 'dtype=real', 'dtype=complex', 'dtype=int', 'chunks>=2', 'objects>=2', 'uncached_interleaved',
                     'odd_branches', 'enumerated', 'long_call', 'huge_call', 'forked_object']
 
 WINDOWS = ['hamming', 'hann', 'boxcar', 'blackman']
@@ -29,7 +29,8 @@ WINDOWS = ['hamming', 'hann', 'boxcar', 'blackman']
 
 def strategy(tier):
     feed = st.fixed_dictionaries({'obj': st.integers(0, 2), 'w': st.integers(1, 4),
-                                  'cache': st.sampled_from([True, True, True, False]),
+                                  # 'default' leaves the keyword out: the documented default is to keep the stream's tail
+                                  'cache': st.sampled_from([True, True, 'default', False]),
                                   'reset': st.sampled_from([False] * 7 + [True]),
                                   # memory layout of the chunk handed over (same values)
                                   'layout': st.sampled_from(['contig'] * 3 + ['strided', 'part_of_complex', 'reversed', 'readonly']),
@@ -221,7 +222,11 @@ def run_case(case, ctx):
                 want = full[emitted[k]:]
                 emitted[k] = len(full)
                 chunks[k] += 1
-                ok, got = core.call(obs, 'channelize', pfb.channelize, lay(x, layout), cache=True)
+                if f['cache'] == 'default':
+                    obs.cls('cache_keyword_omitted')
+                    ok, got = core.call(obs, 'channelize', pfb.channelize, lay(x, layout))
+                else:
+                    ok, got = core.call(obs, 'channelize', pfb.channelize, lay(x, layout), cache=True)
                 if ok:
                     good, why = close(got, want, scale=max(float(np.max(np.abs(full))) if full.size else 1.0, 1e-300))
                     if not good:
